@@ -413,4 +413,91 @@ def cutBy : List Nat → Bytes → List Bytes
 /-- the underlying writes of `Encode` of the value whose encoding is `b` -/
 def codecPieces (b : Bytes) : List Bytes := cutBy (codecLens b.length b) b
 
+/-! ### the armored composition: `armorEncoderStream` over a faulting writer
+
+  `armor.go`: `Write` = BaseX `encoder.Write` into a `bytes.Buffer` (never
+  fails), then `spaceAndOutputBuffer`; every `s.encoded.Write` may fail and its
+  error is returned at once — the word already taken out of the buffer is lost,
+  `nWords` stays incremented, and nothing is remembered (the armor stream has no
+  sticky error; in the compositions of armor62_*.go the packet stream above it
+  dies with go-codec's encoder, and `closeForwarder.Close` does not close the
+  armor stream when the packet stream's `Close` failed). -/
+
+structure FArm where
+  par : Armor.Params
+  enc : Stream.EncState        -- the BaseX encoder; `written` holds only what the current call produced
+  buf : Bytes                  -- unread part of the `bytes.Buffer`
+  nWords : Nat
+  ftr : Bytes
+  w : Wr
+
+/-- `spaceAndOutputBuffer` over the faulting writer -/
+def FArm.spaceOut : (fuel : Nat) → FArm → Bool × FArm
+  | 0, s => (true, s)
+  | fuel + 1, s =>
+    if s.buf.length > s.par.bytesPerWord then
+      let word := s.buf.take s.par.bytesPerWord
+      let n := s.nWords + 1
+      let sep := if n % s.par.wordsPerLine = 0 then Armor.newline else Armor.space
+      let s1 := { s with buf := s.buf.drop s.par.bytesPerWord, nWords := n }
+      match s1.w.write word with
+      | (false, w') => (false, { s1 with w := w' })
+      | (true, w') =>
+        match w'.write [sep] with
+        | (false, w'') => (false, { s1 with w := w'' })
+        | (true, w'') => FArm.spaceOut fuel { s1 with w := w'' }
+    else (true, s)
+
+/-- what an encoder call produced is appended to the `bytes.Buffer` -/
+def FArm.feed (s : FArm) (e' : Stream.EncState) : FArm :=
+  { s with enc := { e' with written := [] }, buf := s.buf ++ e'.written.flatten }
+
+/-- `armorEncoderStream.Write(b)`: success or the writer's error -/
+def FArm.write (s : FArm) (b : Bytes) : Bool × FArm :=
+  let s1 := s.feed (s.enc.write b).2.2
+  FArm.spaceOut (s1.buf.length + 1) s1
+
+/-- `armorEncoderStream.Close()` -/
+def FArm.close (s : FArm) : Bool × FArm :=
+  let s1 := s.feed s.enc.close.2
+  match FArm.spaceOut (s1.buf.length + 1) s1 with
+  | (false, s2) => (false, s2)
+  | (true, s2) =>
+    match s2.w.write s2.buf with                 -- `lst` (possibly an empty write)
+    | (false, w') => (false, { s2 with w := w' })
+    | (true, w') =>
+      let n := s2.nWords + 1
+      let pad : Bytes :=
+        if s2.buf.length = s2.par.bytesPerWord then
+          (if n % s2.par.wordsPerLine = 0 then [Armor.newline] else [Armor.space])
+        else []
+      match w'.write (pad ++ [Armor.period, Armor.space] ++ s2.ftr ++ [Armor.period, Armor.newline]) with
+      | (ok, w'') => (ok, { s2 with nWords := n, w := w'' })
+
+/-- `newArmorEncoderStream`: `header + ". "` in one write -/
+def FArm.init (par : Armor.Params) (hdr ftr : Bytes) (w : Wr) : Bool × FArm :=
+  match w.write (hdr ++ [Armor.period, Armor.space]) with
+  | (ok, w') => (ok, { par := par, enc := { enc := par.enc }, buf := [], nWords := 0, ftr := ftr, w := w' })
+
+def FArm.init62 (typ : Int) (brand : Bytes) (w : Wr) : Bool × FArm :=
+  FArm.init Armor.params62 (Armor.header typ brand) (Armor.footer typ brand) w
+
+/-- `closeForwarder.Close` of a packet stream over the armor stream: the
+    packet stream's `Close`; only if that succeeds, the armor stream's -/
+def armoredClose (cfg : Cfg) (st : PSt FArm) : Option Err × PSt FArm :=
+  match st.close FArm.write cfg with
+  | (some e, st') => (some e, st')
+  | (none, st') =>
+    match st'.codec.w.close with
+    | (true, a) => (none, { st' with codec := { st'.codec with w := a } })
+    | (false, a) => (some .ioError, { st' with codec := { st'.codec with w := a } })
+
+def armoredCloseD (pieces : Bytes → List Bytes) (sigPkt : Bytes → Bytes) (st : DSt FArm) : Option Err × DSt FArm :=
+  match st.close FArm.write pieces sigPkt with
+  | (some e, st') => (some e, st')
+  | (none, st') =>
+    match st'.codec.w.close with
+    | (true, a) => (none, { st' with codec := { st'.codec with w := a } })
+    | (false, a) => (some .ioError, { st' with codec := { st'.codec with w := a } })
+
 end Saltpack.Sender
